@@ -868,3 +868,24 @@ theorem add_missing_data_tie (src d : DataSess) (B sk : Nat)
           | some r => obtain ⟨start, full⟩ := r; simp [Except.map]
 
 end BS.Gen
+
+namespace BS.Gen
+open BS.Impl
+
+/-! ### `TimeRange::update` (the append rule of `push_line`) -/
+
+/-- `TimeRange::update` as translated: refuses (`TimeNotAfterLast`) exactly when the model's `rangeUpdate`
+does, i.e. when the new timestamp is not after the last one, and else sets the same new range -/
+theorem time_range_update_tie (r : Option (Nat × Nat)) (ts : Nat) :
+    TimeRange_update r ts =
+      match Impl.rangeUpdate r ts with
+      | .ok r' => .ok (r', ())
+      | .error _ => .error (.err "TimeNotAfterLast") := by
+  unfold TimeRange_update Impl.rangeUpdate
+  cases r with
+  | none => rfl
+  | some ab =>
+    obtain ⟨a, b⟩ := ab
+    by_cases h : b ≥ ts <;> simp [h]
+
+end BS.Gen
